@@ -6,6 +6,7 @@
    (that case is C05_one_truthful_final_refuted, a recorded finding). *)
 From Coq Require Import ZArith List Bool Permutation.
 From RP Require Import Gen.StatesTables Pipeline.Model Pipeline.Oracle Pipeline.Proofs.
+From RP Require Exec.Model Exec.Oracle Exec.CancelProofs Exec.ReleaseProofs.
 Import ListNotations.
 Open Scope Z_scope.
 
@@ -142,3 +143,29 @@ Example C05_nonvacuous :
   map (fun u => fin_sts u (tr g)) [1; 2; 3; 4]
   = [[T_DONE; T_DONE]; [T_FAILED]; [T_FAILED]; [T_CANCELED]].
 Proof. vm_compute. repeat split; reflexivity. Qed.
+
+(* ---- executor side: the thread interleavings which the pipeline model
+   abstracts (station CAExec as one step) ----
+   RP.Exec.Model: the Popen executor as four interleaved threads.  For every
+   scenario and EVERY schedule, at quiescence every received task has been
+   handed on exactly once (staged with its outcome, FAILED or CANCELED), never
+   both collected and canceled; it is CANCELED only if a cancel request named
+   it or it has a run-time limit; otherwise FAILED exactly when its launch
+   fails and collected with its process' exit code exactly once if not. *)
+Module ExecSide.
+Import RP.Exec.Model RP.Exec.Oracle RP.Exec.CancelProofs RP.Exec.ReleaseProofs.
+Theorem C05_executor_one_truthful_handover :
+  forall (sc : scenario) (sched : list choice) (s : state) (tr : list stepobs) (u : Z),
+    NoDup (delivered sc) -> In u (delivered sc) -> run (init sc) sched = (s, tr) -> quiescent s = true ->
+    let ems := emissions tr in
+    n_hand u ems = 1%nat /\
+    ~ (0 < n_collected u ems /\ 0 < n_canceled u ems)%nat /\
+    (mem u (named sc) = false -> has_limit sc u = false ->
+     n_canceled u ems = 0%nat /\
+     match fault_of sc u with
+     | FNone => n_collected u ems = 1%nat /\ n_adv SFailed u ems = 0%nat
+     | _ => n_adv SFailed u ems = 1%nat /\ n_collected u ems = 0%nat
+     end).
+Proof. exact one_truthful_handover. Qed.
+Print Assumptions C05_executor_one_truthful_handover.
+End ExecSide.
